@@ -52,7 +52,7 @@ class Check:
     def __init__(self, prop, tier, seed, replay=None):
         self.prop, self.tier, self.seed, self.replay_only = prop, tier, int(seed), replay
         self.cfg = PROPS[prop]
-        self.rundir = os.path.join(VERIF, "build", "run", prop)
+        self.rundir = os.path.join(vbuild.BUILD, "run", prop)
         shutil.rmtree(self.rundir, ignore_errors=True)
         os.makedirs(self.rundir, exist_ok=True)
         self.violations = []   # (replay path, message)
